@@ -198,6 +198,20 @@ func (cg *caseGen) randomGrammar(n int) {
 				// anchor at end of input
 				e = seqOf(e, un(pvcase.KNot, &pvcase.Expr{Kind: pvcase.KAny}))
 			}
+			// make it likely that some block runs at all
+			if (cg.f.pred || cg.f.stc) && cg.chance(0.3) {
+				kinds := []string{}
+				if cg.f.pred {
+					kinds = append(kinds, pvcase.KAndc, pvcase.KNotc)
+				}
+				if cg.f.stc {
+					kinds = append(kinds, pvcase.KStc, pvcase.KStc)
+				}
+				e = seqOf(&pvcase.Expr{Kind: pickStr(cg.r, kinds)}, e)
+			}
+			if cg.f.act && e.Kind != pvcase.KAct && cg.chance(0.45) {
+				e = un(pvcase.KAct, e)
+			}
 		}
 		cg.rules[i] = &pvcase.Rule{Name: cg.names[i], Expr: e}
 		cg.ruleNull[i] = null
@@ -502,6 +516,7 @@ func (g *generator) genCase(prof string) ([]*pvcase.Case, *caseGen) {
 	if prof == "lr" {
 		// operators and parentheses come from literals; operands from here
 		cg.f.act, cg.f.lab = g.chance(0.7), true
+		cg.f.tupBias = 0.6
 		if cg.f.act {
 			cg.f.globEff = g.chance(0.3)
 			cg.f.stateEff = fl.HasState() && g.chance(0.3)
